@@ -158,6 +158,55 @@ int main(void) {
             printf("allocs=%ld ", aw_end());
             memset(k.p, 0xAA, k.n);
             printf("%s ", r ? "true" : "false"); state();
+        } else if ((!strcmp(op, "puts") || !strcmp(op, "putf")) && nw == 3) {
+            /* the string-level entry points: NUL-terminated key and value (exactly sized copies) */
+            char *ks = cstr_exact(&k), *vs = cstr_exact(&v);
+            aw_begin();
+            errno = stale_errno;
+            bool r = op[3] == 's' ? tbl->putstr(tbl, ks, vs) : tbl->putstrf(tbl, ks, "%s", vs);
+            long na = aw_end();
+            memset(ks, 0xAA, k.n); memset(vs, 0xAA, v.n); free(ks); free(vs);
+            if (op[3] == 's') printf("allocs=%ld ", na); else printf("allocs=* ");   /* the formatting buffer is not counted */
+            printf("%s ", r ? "true" : "false"); state();
+        } else if ((!strcmp(op, "gets") || !strcmp(op, "getss")) && nw == 2) {
+            /* gets: get() with a string key; getss: getstr() (only on values stored as strings) */
+            char *ks = cstr_exact(&k);
+            size_t sz = 0;
+            aw_begin();
+            errno = stale_errno;
+            void *d = op[4] ? (void *) tbl->getstr(tbl, ks, true) : tbl->get(tbl, ks, &sz, true);
+            printf("allocs=%ld ", aw_end());
+            if (d && op[4]) sz = strlen((char *) d) + 1;
+            if (d) { printf("data "); puthex(stdout, d, sz); keep(d, sz); } else printf("null");
+            free(ks);
+        } else if (!strcmp(op, "rms") && nw == 2) {
+            char *ks = cstr_exact(&k);
+            aw_begin();
+            errno = stale_errno;
+            bool r = tbl->remove(tbl, ks);
+            printf("allocs=%ld ", aw_end());
+            free(ks);
+            printf("%s ", r ? "true" : "false"); state();
+        } else if (!strcmp(op, "inv") && nw == 2) {
+            /* documented invalid arguments (NULL or zero-length key): failure + EINVAL, nothing else */
+            static const char key[4] = "key";
+            size_t sz = 99; int e[12]; bool r[12]; int i = 0;
+            const void *kp = k.n ? (const void *) k.p : (const void *) key; size_t kn = k.n ? k.n : 4;
+            errno = 0; r[i] = tbl->putobj(tbl, NULL, kn, "v", 2); e[i++] = errno;
+            errno = 0; r[i] = tbl->putobj(tbl, kp, 0, "v", 2); e[i++] = errno;
+            errno = 0; r[i] = tbl->put(tbl, NULL, "v", 2); e[i++] = errno;
+            errno = 0; r[i] = tbl->putstr(tbl, NULL, "v"); e[i++] = errno;
+            errno = 0; r[i] = tbl->putstrf(tbl, NULL, "%s", "v"); e[i++] = errno;
+            errno = 0; r[i] = tbl->getobj(tbl, NULL, kn, &sz, true) != NULL; e[i++] = errno;
+            errno = 0; r[i] = tbl->getobj(tbl, kp, 0, &sz, true) != NULL; e[i++] = errno;
+            errno = 0; r[i] = tbl->get(tbl, NULL, &sz, true) != NULL; e[i++] = errno;
+            errno = 0; r[i] = tbl->getstr(tbl, NULL, true) != NULL; e[i++] = errno;
+            errno = 0; r[i] = tbl->removeobj(tbl, NULL, kn); e[i++] = errno;
+            errno = 0; r[i] = tbl->remove(tbl, NULL); e[i++] = errno;
+            errno = 0; { qtreetbl_obj_t o = tbl->find_nearest(tbl, NULL, kn, true); r[i] = o.name != NULL; e[i++] = errno; }
+            printf("inv");
+            for (int j = 0; j < i; j++) printf(" %d:%s", (int) r[j], errname(e[j]));
+            printf(" "); state();
         } else if (!strcmp(op, "get") && nw == 2) {
             size_t sz = 0; cmp_calls = 0;
             aw_begin();
